@@ -1376,3 +1376,112 @@ def rule_job_only_in_pool(ctx, prop):
                               f"the arguments (exit 101, the remaining files are never dispatched) instead of being counted by "
                               f"pool.panic_count() and turned into exit status 2", loc, cfg)
     return rep
+
+
+LOSSY = re.compile(r"from_utf8_lossy$|to_string_lossy$|from_utf8_unchecked$|from_utf16_lossy$|decode|encoding_rs|chars_lossy")
+
+
+def rule_exact_read(ctx, prop):
+    """what is formatted is exactly what was read: bytes that are not valid UTF-8 are an error, never replaced"""
+    rep = Report(prop, "R-EXACTREAD", "the text handed to format_code / format_string is read with read_to_string (invalid UTF-8 is an "
+                                      "error): no lossy decoding between the bytes read and the text formatted")
+    for cfg, prog in ctx.programs.items():
+        prog = _view(prog)
+        n = 0
+        for f in prog.fns("stylua"):
+            for b, t in f.calls():
+                c = callee(t)
+                if not (c.endswith("format_code") or c == "format_string" or c == "format_file"):
+                    continue
+                if c == "format_file":
+                    continue
+                n += 1
+                import r_cfg
+                deep = r_cfg._deep_calls(f, t["args"][0])
+                lossy = sorted(x for x in deep if LOSSY.search(x))
+                rep.inst(f"{f.key} -> {c.split('::')[-1]} input decoded exactly", {"through": sorted(x.split('::')[-1] for x in deep)[:6]}, cfg, ok=not lossy)
+                if lossy:
+                    rep.violation(f"{f.key} lossy-input-decoding via={','.join(x.split('::')[-1] for x in lossy)}",
+                                  f"{f.path} formats a text obtained through {[x.split('::')[-1] for x in lossy]}: input that is not valid "
+                                  f"UTF-8 is silently altered (U+FFFD) and the altered text is formatted and written / printed with exit "
+                                  f"status 0, instead of the read failing with status 2", f.loc(t["sp"]), cfg)
+            # any lossy decoding at all in the input path of the CLI crate
+        extra = [(f, t) for f in prog.fns("stylua") for b, t in f.calls() if re.search(r"String::from_utf8_lossy$|str::from_utf8_unchecked$", callee(t))
+                 and re.search(r"^format|^main", f.path)]
+        for f, t in extra:
+            rep.violation(f"{f.key} lossy-input-decoding via={callee(t).split('::')[-1]}",
+                          f"{f.path} decodes bytes with {callee(t)}: input that is not valid UTF-8 is silently altered instead of being "
+                          f"reported as an error (exit status 2, nothing written / printed)", f.loc(t["sp"]), cfg)
+        rep.floor("format_code / format_string call sites of the CLI", n, 2, cfg)
+    return rep
+
+
+def rule_check_verdict(ctx, prop):
+    """under --check the verdict on a file is create_diff's answer: Complete (nothing reported, exit status untouched) only on
+    its None, Diff only on its Some"""
+    from paths import Enumerator, TooManyPaths
+    rep = Report(prop, "R-CHECKVERDICT", "in format_file / format_string every path that can run with opt.check set and returns "
+                                         "FormatResult::Complete took the None arm of create_diff's result (and Diff its Some arm): "
+                                         "no other judgement declares a file formatted in check mode")
+    for cfg, prog in ctx.programs.items():
+        n = 0
+        for name in ("format_file", "format_string"):
+            f = prog.fn("stylua", name)
+            if not rep.anchor(f is not None, f"stylua::{name}", cfg):
+                continue
+            try:
+                res = Enumerator(f, max_paths=60000).run()
+            except TooManyPaths:
+                rep.anchor(False, f"{name}: too many paths", cfg)
+                continue
+            # calls whose value is create_diff's result (through context / `?`)
+            from_diff = set()
+            for b, t in f.calls():
+                if t["args"] and any(r[0] == "call" and re.search(r"(^|::)create_diff$", r[1])
+                                     for r in provenance(f, t["args"][0], into_aggs=False)):
+                    from_diff.add(b)
+                if re.search(r"(^|::)create_diff$", callee(t)):
+                    from_diff.add(b)
+            # `diff.map_or(FormatResult::Complete, FormatResult::Diff)`: the Complete built up front is only the default
+            # of a combinator over create_diff's Option (taken on None)
+            as_default = set()
+            for b, si, s in f.stmts():
+                if s["k"] == "assign" and s["rv"]["k"] == "agg" and s["rv"].get("adt", "").endswith("FormatResult") \
+                        and s["rv"].get("variant") == "Complete":
+                    us = forward_uses(f, s["dst"]["l"])
+                    if us and all(u[0] == "call" and u[3] == 1 and re.search(r"Option::<.*>::(map_or|unwrap_or)$", callee(u[2]))
+                                  and any(r[0] == "call" and (re.search(r"(^|::)create_diff$", r[1]) or r[2] in from_diff)
+                                          for r in provenance(f, u[2]["args"][0], into_aggs=False))
+                                  for u in us):
+                        as_default.add(b)
+            seen = {}
+            for st in res:
+                trail = set(st.trail)
+                aggs = sorted({s["rv"]["variant"] for b, si, s in f.stmts() if b in trail and s["k"] == "assign" and s["rv"]["k"] == "agg"
+                               and s["rv"].get("adt", "").endswith("FormatResult") and b not in as_default})
+                if not aggs and not (trail & as_default):
+                    continue
+                chk = [v for k, v in st.disc.items() if k.endswith(".check")]
+                if chk and all(v == "false" for v in chk):
+                    continue
+                arms = sorted({v for k, v in st.disc.items() for m in [re.match(r"call:(\d+)\.", k)]
+                               if m and int(m.group(1)) in from_diff and v in ("None", "Some")})
+                seen.setdefault((tuple(aggs), tuple(arms), bool(chk)), st)
+            bad = []
+            for (aggs, arms, chk), st in sorted(seen.items(), key=lambda kv: kv[0]):
+                n += 1
+                want = {"Complete": ("None",), "Diff": ("Some",)}
+                ok = (len(aggs) == 1 and aggs[0] in want and arms == want[aggs[0]]) or (not aggs)
+                if not ok:
+                    bad.append((aggs, arms, chk, st))
+            rep.inst(f"{f.key} check-mode verdict follows create_diff", {"check_mode_path_classes": len(seen)}, cfg, ok=not bad)
+            for aggs, arms, chk, st in bad[:3]:
+                calls = [c.split("::")[-1] for _, c, _ in st.calls][-4:]
+                rep.violation(f"{f.key} check-verdict-without-diff result={','.join(aggs)} diff-arm={','.join(arms) or 'none'}",
+                              f"{f.path} has a path that {'runs under opt.check' if chk else 'does not consult opt.check'} and returns "
+                              f"FormatResult::{'/'.join(aggs)} having taken {list(arms) or 'no'} arm of create_diff's answer "
+                              f"(last calls: {calls}): in check mode the file is declared formatted (no diff, exit status 0) "
+                              f"- or reported - by something other than the comparison of the input with its formatted text",
+                              f.loc(), cfg)
+        rep.floor("check-mode result path classes in format_file + format_string", n, 2, cfg)
+    return rep
